@@ -298,6 +298,51 @@ def plan(tier, seed):
     return shards
 
 
+# ---------------------------------------------------------------------------------------
+# Canary pages: "every later render behaves as if the failed one had never happened" is also judged on pages that have
+# nothing to do with the failed program - the skeleton catalogue's hard compositions (default content passed on through
+# {{ default_var }} with components and slots in it, forwarding, slots in loops ...), rendered once at the start of the
+# worker (checked against the reference interpreter) and again after every program's fault sweep.
+def make_canaries(env):
+    from vf.gen import skeletons
+
+    out = []
+    k = 0
+    while len(out) < 10 and k < 60:
+        k += 1
+        rng = random.Random(f"c06-canary-{k}")
+        prog, skname, _g = skeletons.skeleton_program(rng)
+        for mode in ("django", "isolated"):
+            ref = e1run.reference(prog, mode)
+            if ref[0] != "ok":
+                break
+        else:
+            built = env.build(prog)
+            base = {}
+            for mode in ("django", "isolated"):
+                got = env.render(built, mode)
+                if got[0] != "ok" or got[1] != e1run.reference(prog, mode)[1]:
+                    base = None
+                    break
+                base[mode] = got[1]
+            if base:
+                out.append((skname, prog, built, base))
+            else:
+                built.dispose()
+    return out
+
+
+def check_canaries(env, rec, canaries, after):
+    for skname, prog, built, base in canaries:
+        for mode in ("django", "isolated"):
+            got = env.render(built, mode)
+            rec.observe("canary-renders")
+            if got[0] != "ok" or got[1] != base[mode]:
+                rec.violation("unrelated-page-renders-differently-after-failed-renders", {"program": after.get("program"), "mode": after.get("mode"), "seed": after.get("seed"), "canary": skname, "canary_program": prog, "canary_mode": mode}, {"what": f"canary {skname} ({mode}): at worker start {base[mode][:200]!r}, now {str(got[1])[:200]!r}"})
+                return False
+    return True
+
+
 def run_shard(spec, rec):
     env = Env()
     rng = random.Random(f"{spec['seed']}-c06-{spec['name']}")
@@ -308,7 +353,10 @@ def run_shard(spec, rec):
             if prog is not None:
                 steady_state(env, rec, prog, rng.choice(["django", "isolated"]), spec["K"], [spec["seed"], "steady", i])
         return
-    rec.require("failpoints-executed", "sentinels-checked", "census-snapshots", "followup-renders")
+    rec.require("failpoints-executed", "sentinels-checked", "census-snapshots", "followup-renders", "canary-renders")
+    canaries = make_canaries(env)
+    rec.count("canary_pages", len(canaries))
+    canaries_ok = True
     for i in range(spec["n"]):
         prog = gen(rng)
         if prog is None:
@@ -320,6 +368,9 @@ def run_shard(spec, rec):
             kinds = lambda j: [failpoints.EXC_KINDS[j % 4]]  # noqa: E731
         program_fault_sweep(env, rec, prog, mode, kinds, [spec["seed"], spec["idx"], i])
         rec.count("programs")
+        if canaries_ok:
+            # (after the first report the worker's state is what it is: one report per worker)
+            canaries_ok = check_canaries(env, rec, canaries, {"program": prog, "mode": mode, "seed": [spec["seed"], spec["idx"], i]})
         if i % 3 == 0:
             python_route(env, rec, prog, mode, [spec["seed"], spec["idx"], i])
         if rec.want_sample() and i % 3 == 0:
@@ -338,4 +389,6 @@ def replay(case, rec):
     elif case.get("route") == "python":
         python_route(env, rec, prog, case["mode"], case.get("seed"))
     else:
+        canaries = make_canaries(env)
         program_fault_sweep(env, rec, prog, case["mode"], lambda j: failpoints.EXC_KINDS, case.get("seed"))
+        check_canaries(env, rec, canaries, case)
